@@ -117,9 +117,9 @@ def kg_case(a):
         sk = got[1]
         if type(sk) is not int or not (1 <= sk < BLS_R):
             return exp, ("ok-out-of-range", repr(sk)[:80])
-        again = _call(S.KeyGen, ikm, info)
+        again = _call(S.KeyGen, TaggedBytes(ikm), TaggedBytes(info))
         if again != got:
-            return exp, ("nondeterministic", repr(again)[:80])
+            return exp, ("differs-for-bytes-subclass-arguments-or-nondeterministic", repr(again)[:80])
     return exp, got
 
 
@@ -139,6 +139,10 @@ def task_keygen(a, env):
     return r
 
 
+class TaggedBytes(bytes):
+    __slots__ = ()
+
+
 def mut_case(a):
     """one history: call with bytearray arguments, mutate them in place, call again - both results
     must be the RFC values of the contents at the time of the call"""
@@ -146,6 +150,9 @@ def mut_case(a):
     out = []
     if a["which"] == "extract":
         salt, ikm = bytearray(_fill("count", a["l1"], 1)), bytearray(_fill("count", a["l2"], 2))
+        # first of all: the same contents as instances of a proper subclass of bytes
+        out.append((-1, ("ok", M.extract(bytes(salt), bytes(ikm))),
+                    _norm(_call(H.hkdf_extract, TaggedBytes(salt), TaggedBytes(ikm)))))
         for step in range(3):
             exp = ("ok", M.extract(bytes(salt), bytes(ikm)))
             got = _norm(_call(H.hkdf_extract, salt, ikm))
@@ -156,6 +163,8 @@ def mut_case(a):
                 ikm[-1] ^= 0x0F
     else:
         prk, info = bytearray(_fill("count", 32, 7)), bytearray(_fill("count", a["l2"], 3))
+        out.append((-1, ("ok", M.expand(bytes(prk), bytes(info), a["l1"])),
+                    _norm(_call(H.hkdf_expand, TaggedBytes(prk), TaggedBytes(info), a["l1"]))))
         for step in range(3):
             exp = ("ok", M.expand(bytes(prk), bytes(info), a["l1"]))
             got = _norm(_call(H.hkdf_expand, prk, info, a["l1"]))
@@ -164,6 +173,14 @@ def mut_case(a):
                 prk[0] ^= 0x55
             elif step == 1 and len(info):
                 info[-1] ^= 0x0F
+        # plain bytes arguments; the returned buffer is wiped by the caller (as key material is) between
+        # two equal calls
+        bp, bi = bytes(prk), bytes(info)
+        for step in (3, 4, 5):
+            o = _call(H.hkdf_expand, bp, bi, a["l1"])
+            out.append((step, ("ok", M.expand(bp, bi, a["l1"])), _norm(o)))
+            if o[0] == "ok" and isinstance(o[1], bytearray):
+                o[1][:] = bytes(len(o[1]))
     return out
 
 
